@@ -33,6 +33,7 @@ type Server struct {
 	settingsMu            sync.RWMutex
 	supportsConfiguration bool
 	payeeTemplatesCache   sync.Map // map[protocol.DocumentURI]map[string][]analyzer.PostingTemplate
+	publishMu             sync.Mutex
 }
 
 func NewServer() *Server {
@@ -274,6 +275,19 @@ func (s *Server) publishDiagnostics(ctx context.Context, docURI protocol.Documen
 	}
 
 	verifhook.Point("diag.publish", string(docURI), content)
+	s.publishIfCurrent(ctx, docURI, content, diagnostics)
+}
+
+// publishIfCurrent sends diagnostics unless the document has changed since
+// they were computed. Publications are serialised: the analysis of a later
+// version may finish before that of an earlier one, and the result for a
+// superseded version must never be the last thing the client sees.
+func (s *Server) publishIfCurrent(ctx context.Context, docURI protocol.DocumentURI, content string, diagnostics []protocol.Diagnostic) {
+	s.publishMu.Lock()
+	defer s.publishMu.Unlock()
+	if current, ok := s.GetDocument(docURI); ok && current != content {
+		return
+	}
 	_ = s.client.PublishDiagnostics(ctx, &protocol.PublishDiagnosticsParams{
 		URI:         docURI,
 		Diagnostics: diagnostics,
